@@ -662,7 +662,13 @@ func (vm *VM) run() (Addr, bool) {
 				// An invalid reflect.Value represents a nil interface value.
 				cond = !vm.general(a).IsValid()
 			case ConditionNil, ConditionNotNil:
-				cond = vm.general(a).IsNil()
+				v := vm.general(a)
+				if f, ok := v.Interface().(*callable); ok {
+					// A nil function is a callable with a nil native function.
+					cond = f.fn == nil && f.Native().value.IsNil()
+				} else {
+					cond = v.IsNil()
+				}
 			case ConditionEqual, ConditionNotEqual:
 				x := vm.general(a)
 				y := vm.generalk(c, op < 0)
